@@ -281,7 +281,7 @@ func ruleC03(c *Ctx, r *Result) {
 			}
 		}
 		if cmp == nil {
-			r.Viol("C03.1", c.Name(ltp)+"#duplicate-name-check", c.InstrPos(addEntry), "AddEntry is not preceded by a scan of the parent's entries that rejects an equal name")
+			r.ViolMissing(c, ltp, "C03.1", c.Name(ltp)+"#duplicate-name-check", c.InstrPos(addEntry), "AddEntry is not preceded by a scan of the parent's entries that rejects an equal name")
 		} else {
 			head := gateLoopHead(cmp)
 			okDom := head != nil && head.Dominates(addEntry.Block()) && head.Dominates(addString.Block()) &&
@@ -364,7 +364,7 @@ func ruleC03(c *Ctx, r *Result) {
 			}
 		}
 	}
-	r.Check(parentChecked, "C03.3", c.Name(ltp)+"#missing-parent-rejected", c.Pos(ltp.Pos()), "a non-root parent is looked up in fw.groups and its absence is an error")
+	r.CheckMissing(c, ltp, parentChecked, "C03.3", c.Name(ltp)+"#missing-parent-rejected", c.Pos(ltp.Pos()), "a non-root parent is looked up in fw.groups and its absence is an error")
 	// C03.4 capacity errors
 	for _, fn := range c.LibFuncs() {
 		for _, site := range callsIn(fn) {
@@ -1590,6 +1590,18 @@ func init() {
 				n++
 				goal := norm(fb.lin(cursorStore.Val)).add(norm(fb.lin(retOperand(ret, 0))), -1).add(fb.lin(size), -1)
 				ok := fb.prove(goal, fb.blockFacts(ret.Block()), 3)
+				if !ok {
+					opaque := false
+					for k := range goal.T {
+						if _, isCall := k.(*ssa.Call); isCall {
+							opaque = true
+						}
+					}
+					if opaque {
+						r.Undec("C04.8", c.Name(fn)+"#cursor-beyond-returned-block", c.InstrPos(cursorStore), "the new cursor is computed by a call the arithmetic does not see through: "+fb.linString(goal))
+						continue
+					}
+				}
 				r.Check(ok, "C04.8", c.Name(fn)+"#cursor-beyond-returned-block", c.InstrPos(cursorStore), "new cursor - (returned address + size) = "+fb.linString(goal)+" must be >= 0")
 			}
 		}
